@@ -44,11 +44,13 @@ EXPLANATION = (
     'R8: on every path of Interpreter.func_dependency that reaches lookup(), the value of the `fallback` keyword was handed to set_fallback() or is known to be None. '
     'R9: in Interpreter.do_subproject the call of the wrap resolver\'s resolve() has, for every exception class of wrap.py that wrap.py raises (closed world of the module, class hierarchy from its class statements), a handler that catches it, and every path of that handler on which the subproject is not required returns self.disabled_subproject(..) (so an optional lookup whose fallback cannot be resolved - hash mismatch, nodownload, failed patch - yields not-found). '
     'R1a/R1f also read candidates given as closures with the name bound (functools.partial(self.m, <name parameter>=X), the loop supplying the other two parameters by signature); R2d reads an archive path that is a parameter through every call site of the function in wrap.py (who-may-call; a function used as a value ends Undecided); local closures (def inside the function, only called) are expanded like helpers and an applied lambda is beta-reduced. '
-    'R4: apply_patch/apply_diff_files run only in _resolve inside a try whose handlers remove self.dirname and re-raise; every return of _resolve is '
+    'R4: every step that writes the directory _resolve found absent from an archive - the unpack of the source archive (shutil.unpack_archive reached from _resolve, today in _get_file) and '
+    'apply_patch/apply_diff_files - runs, on every call chain from _resolve, inside a try whose handlers catch Exception, remove self.dirname and re-raise (in the function of the step or in a caller on the chain); every return of _resolve is '
     'gated by has_buildfile(). NOT decided: outcomes of run-time lookups (system state, subproject configuration), the cross product of the policy table as behaviour, '
     'that sha256/urlopen behave as documented, KeyboardInterrupt during patching, how the text of a [provide] value is cut into names (per-item strip()/lower() in PackageDefinition.parse_provide_section is string processing on run-time values), '
     'that an override is found by a dependency() call that names another method/modules/components (these keywords are part of the identifier by upstream design; confirmed by probe, not armed), a guard of _get_cached_dep spelled with another attribute than the reference knows (ends Undecided), override_dependency() in interpreter/mesonmain.py (which static=/default_library variants of the identifier an override is registered under - seed C10-r7-2, if/elif over membership tests - is a value-level table of another module that no rule of this pack anchors), '
-    'a failure of the acquisition step itself (a failing shutil.unpack_archive in _get_file / clone in _get_git leaves a partly populated directory that a later run accepts when the build file was already unpacked: outside the clause "a failed patch/diff step", printed as an information note by R4, witness in the note), '
+    'a failure of the other acquisition steps (_get_git/_get_hg/_get_svn run external programs, copy_tree copies from the extracted-package cache, all outside the cleanup try: what a failing clone/checkout leaves under self.dirname is behaviour of the external program, not readable from the source; the property lists fetch/verify/unpack/patch/diff of archives - printed as an information note by R4), '
+    'which exception class a failing unpack is reported as (tarfile.ReadError / zipfile.BadZipFile are no OSError: library knowledge), '
     '`meson subprojects update/packagefiles` (msubprojects.py re-applies patches outside the cleanup), a known call made with other operands than the reference reads (e.g. _get_cached_dep(self.names[0], ..) inside the loop over the names, get_varname() with swapped operands, find_dep_provider(self.names[0])): the atom is not recognised and the table rule ends Undecided, it is not reported as a violation.')
 ASSUMPTIONS = ['Dependency objects are truthy; NotFoundDependency.found() is False',
                'hashlib.sha256 / os.rename / shutil.unpack_archive behave as documented',
@@ -1759,6 +1761,12 @@ def r3(ctx: RuleCtx) -> None:
 # R4  half-prepared directories are removed
 
 STEPS = ('apply_patch', 'apply_diff_files')
+ACQUIRE = ('_get_file', '_get_git', '_get_hg', '_get_svn', 'copy_tree')
+
+
+def _is_unpack(c: ast.Call) -> bool:
+    """the in-process unpack primitive (the `unpack` step of fetch -> verify -> unpack -> patch -> diff), as R2d reads it"""
+    return call_name(c) in ('shutil.unpack_archive', 'unpack_archive')
 
 
 def _is_dirname(e: ast.AST, fn: ast.AST) -> bool:
@@ -1801,7 +1809,11 @@ def _cleanup_problems(cfg: CFG, n: Node, fn: ast.AST) -> T.Tuple[T.List[str], T.
         esc = cfg.reachable([h], avoid=rm, edge_ok=within_scope)
         if cfg.exit_raise.id in esc or cfg.exit_return.id in esc:
             problems.append(f'{name} can be left without removing self.dirname')
+            raised = {id(r.exc) for r in ast.walk(h.ast) if isinstance(r, ast.Raise) and isinstance(r.exc, ast.Call) and isinstance(r.exc.func, ast.Name)
+                      and r.exc.func.id.endswith(('Exception', 'Error'))}     # `raise SomeException(..)`: builds the exception, cleans nothing
             for c in calls_in(h.ast, nested=True):     # a call in the handler that is neither the removal nor logging may be the clean-up
+                if id(c) in raised:
+                    continue
                 cn = call_name(c) or short(c.func, 30)
                 understood_rm = 'rmtree' in cn and c.args and (_is_dirname(c.args[0], fn) or attr_chain(c.args[0]) is not None and '.' in (attr_chain(c.args[0]) or ''))
                 if not (cn.startswith('mlog.') or cn in ('str', 'repr', 'print', 'format') or understood_rm):
@@ -1811,7 +1823,34 @@ def _cleanup_problems(cfg: CFG, n: Node, fn: ast.AST) -> T.Tuple[T.List[str], T.
     return problems, unread
 
 
+_R4_EXAMPLE = '''
+def loose(self, p, d):
+    try:
+        shutil.unpack_archive(p, d)
+    except OSError as e:
+        raise WrapException(str(e)) from e
+def tight(self, p, d):
+    try:
+        shutil.unpack_archive(p, d)
+    except Exception as e:
+        windows_proof_rmtree(self.dirname)
+        raise WrapException(str(e)) from e
+'''
+
+
+def _r4_example() -> None:
+    """built-in example: a narrow handler without removal is reported, `except Exception: remove self.dirname; raise X from e` is not"""
+    got = {}
+    for f in ast.parse(_R4_EXAMPLE).body:
+        cfg = CFG(f)                     # type: ignore[arg-type]
+        (n,) = cfg.nodes_with_call(_is_unpack)
+        got[f.name] = _cleanup_problems(cfg, n, f)       # type: ignore[attr-defined]
+    if not got['loose'][0] or got['tight'] != ([], []):
+        raise AssertionError(f'R4: the built-in example is not read as intended: {got}')
+
+
 def r4(ctx: RuleCtx) -> None:
+    _r4_example()
     mod = ctx.repo.module(WRAP)
     qn = f'{R}._resolve'
     meths = mod.methods(R)
@@ -1834,7 +1873,7 @@ def r4(ctx: RuleCtx) -> None:
                 continue
             for c in [c for c in walk_no_nested(e) if isinstance(c, ast.Call)]:
                 k = S.self_method_called(c)
-                if k in STEPS:
+                if k in STEPS or _is_unpack(c):      # (an unpack inside a patch/diff step belongs to that step: STEPS are not entered)
                     leaves[id(c)] = (m, c)
                     inner: Open = [([], c, m, [])]
                 elif k in meths and k != m and k not in busy:
@@ -1851,23 +1890,36 @@ def r4(ctx: RuleCtx) -> None:
     bad = {id(leaf): (chain, where, why) for chain, leaf, where, why in unprotected('_resolve', frozenset())}
     if bad and unsure:
         raise Undecided(f'{qn}: no clean-up recognised around a patch/diff step, but {sorted(set(unsure))} could be one')
+    n_unpack = 0
     for lid, (where, c) in leaves.items():
+        unpack = _is_unpack(c)
+        n_unpack += unpack
         if lid in bad:
             chain, _, why = bad[lid]
-            ctx.violation(mod, f'{R}.{where}', c, f'{short(c)} (reached by {" -> ".join(chain)}) ' + '; '.join(why), c)
+            if unpack:      # keyed without the names of the locals that hold archive and destination
+                ctx.violation(mod, f'{R}.{where}', f'{call_name(c)}(..) of the source archive', f'{short(c)} (reached by {" -> ".join(chain)}) ' + '; '.join(why)
+                              + ': an unpack that fails half-way (archive truncated before its hash was recorded, I/O error, disk full) leaves a partly unpacked '
+                              'self.dirname, and when the build file was already written the next run accepts it through the first build-file test of _resolve', c)
+            else:
+                ctx.violation(mod, f'{R}.{where}', c, f'{short(c)} (reached by {" -> ".join(chain)}) ' + '; '.join(why), c)
         else:
             ctx.ok(f'{where}: {short(c)}: failure -> remove self.dirname -> re-raise, on every call chain from _resolve')
-    ctx.floor('patch/diff steps reachable from _resolve', len(leaves), 2)
+    ctx.floor('patch/diff steps reachable from _resolve', len(leaves) - n_unpack, 2)
     fn = _fn(mod, qn)
     cfg = CFG(fn)
-    # observation (not armed, outside the clause "a failed patch/diff step"): acquisition steps that populate self.dirname outside the cleanup
-    acq = cfg.nodes_with_call(lambda c: S.self_method_called(c) in ('_get_file', '_get_git', '_get_hg', '_get_svn', 'copy_tree'))
+    # observation (not armed): the other acquisition steps (external VCS programs, copy from the extracted-package cache) outside the cleanup.
+    # The property lists fetch -> verify -> unpack -> patch -> diff of *archives*; what a failing git/hg/svn leaves behind is not readable here.
+    acq = cfg.nodes_with_call(lambda c: S.self_method_called(c) in ACQUIRE and S.self_method_called(c) != '_get_file')
     loose = [short(n.expr(), 50) for n in acq if not any(lab == 'exc' and cfg.nodes[b].kind == 'handler' for b, lab in cfg.succ[n.id])]
     if loose:
-        ctx.note(f'INFORMATION (not a violation; the clause says patch/diff): a failure inside {loose} - e.g. shutil.unpack_archive raising in _get_file - '
-                 'leaves a partly populated self.dirname behind (no cleanup handler), and a later run accepts it through the first has_buildfile() test when the '
-                 'build file was already unpacked.  Witness (probe, outside the check): tar with foo/meson.build, foo/a, foo/a/b + matching source_hash + patch_directory: '
-                 "run 1 WrapException 'failed to unpack archive', run 2 Resolver.resolve('foo') == ('subprojects/foo', 'meson'), overlay never applied")
+        ctx.note(f'INFORMATION (not a violation; the clause covers the unpack/patch/diff steps of an archive): a failure inside {loose} also happens outside a '
+                 'cleanup handler, so what the external program (or the interrupted copy) wrote under self.dirname stays and a later run accepts it through the '
+                 'first build-file test when the build file is already there.  Witness (probe, outside the check): [wrap-git] url = file://<repo>, revision = <a name that does not exist>: '
+                 "run 1 ERROR 'Git command failed: fetch', subprojects/<dir> keeps the clone of the default branch; run 2 configures it, found() is true (wrong revision).")
+    if not n_unpack:
+        unpack_unread = ('no unpack_archive call is reached from _resolve outside the patch/diff steps: the source archive is unpacked by something this rule does not '
+                         'read, the clause "a failed unpack removes self.dirname and re-raises" is not decided')
+        ctx.note('NOT DECIDED: ' + unpack_unread)
     others = sorted(f'{name}' for name, m in meths.items() for c in calls_in(m, nested=True)
                     if S.self_method_called(c) in STEPS and id(c) not in leaves)
     if others:
@@ -1955,6 +2007,8 @@ def r4(ctx: RuleCtx) -> None:
                         if call_method(c) in STEPS:
                             ext.append(f'{rel}:{c.lineno} {q}')
         ctx.note(f'not armed: patch/diff re-applied to an existing checkout outside the cleanup try (meson subprojects update/packagefiles): {ext}')
+    if not n_unpack:
+        raise Undecided(f'{qn}: ' + unpack_unread)
 
 
 # ---------------------------------------------------------------------------------------------
@@ -2429,5 +2483,5 @@ RULES = [
     Rule('C10.R8', 'the fallback keyword reaches set_fallback() for every value but None', r8),
     Rule('C10.R9', 'a resolve failure of an optional subproject is caught (every wrap exception class) and disables it', r9),
     Rule('C10.R7', 'the [provide] tables are read with lower-cased keys', r7),
-    Rule('C10.R4', 'patch/diff failure removes the directory and re-raises; returns gated by has_buildfile()', r4),
+    Rule('C10.R4', 'unpack/patch/diff failure removes the directory and re-raises; returns gated by has_buildfile()', r4),
 ]
